@@ -1416,3 +1416,95 @@ func c11LeftFold(c *Ctx, r *Report, rule string) {
 	}
 	r.Floor(rule, 3, "arithmaticHelperi, arithmaticHelperiNonZero, arithmaticHelperf")
 }
+
+// ---------------------------------------------------------------- C07-c the increment is one field of the sample
+
+// c07IncrementField (C07-c/increment-field): a sample is a NUL-separated list
+// key[, sub-key][, increment][, more]. The increment handed to strconv is the
+// *field* at its position - what the field splitter yields next - not "the
+// rest of the sample after the previous separator": with strings.Cut /
+// SplitN / manual slicing a sample that carries further fields (an extraction
+// expression that yields a longer array, a trailing separator) makes a valid
+// increment unparsable, so the sample is dropped and counted as a parse
+// error. Accepted origins of the parsed text: the splitter's Next / NextOk, an
+// element of strings.Split, or the sample itself.
+func c07IncrementField(c *Ctx, r *Report, rule string) {
+	n := 0
+	for _, fi := range c.AllFuncDecls("rare/pkg/aggregation") {
+		fd := fi.Decl
+		if fd.Recv == nil || fd.Name.Name != "Sample" || strings.HasSuffix(fi.Pkg.PkgPath, "/sorting") {
+			continue
+		}
+		info := fi.Pkg.TypesInfo
+		params := map[types.Object]bool{}
+		for _, f := range fd.Type.Params.List {
+			for _, nm := range f.Names {
+				params[info.Defs[nm]] = true
+			}
+		}
+		ast.Inspect(fd.Body, func(x ast.Node) bool {
+			ce, ok := x.(*ast.CallExpr)
+			if !ok || len(ce.Args) < 1 {
+				return true
+			}
+			nm := calleeName(info, ce)
+			if nm != "strconv.ParseInt" && nm != "strconv.ParseFloat" && nm != "strconv.Atoi" && nm != "strconv.ParseUint" {
+				return true
+			}
+			n++
+			arg := ast.Unparen(ce.Args[0])
+			origin, okOrigin := "", false
+			o := identObj(info, arg)
+			switch {
+			case o != nil && params[o]:
+				okOrigin, origin = true, "the sample itself"
+			case o != nil:
+				// all definitions of the variable
+				defs := 0
+				good := true
+				ast.Inspect(fd.Body, func(y ast.Node) bool {
+					as, ok := y.(*ast.AssignStmt)
+					if !ok {
+						return true
+					}
+					for i, l := range as.Lhs {
+						if identObj(info, l) != o {
+							continue
+						}
+						defs++
+						var rhs ast.Expr
+						if len(as.Rhs) == 1 {
+							rhs = as.Rhs[0]
+						} else if len(as.Rhs) == len(as.Lhs) {
+							rhs = as.Rhs[i]
+						}
+						src, isCall := ast.Unparen(rhs).(*ast.CallExpr)
+						switch {
+						case isCall && i == 0 && (strings.HasSuffix(calleeName(info, src), "stringSplitter.Splitter).Next") || strings.HasSuffix(calleeName(info, src), "stringSplitter.Splitter).NextOk")):
+							origin = "the field splitter"
+						default:
+							if ix, isIx := ast.Unparen(rhs).(*ast.IndexExpr); isIx {
+								if def := aliasDef(info, fd.Body, ix.X); def != nil {
+									if c2, ok := ast.Unparen(def).(*ast.CallExpr); ok && calleeName(info, c2) == "strings.Split" {
+										origin = "strings.Split"
+										continue
+									}
+								}
+							}
+							good = false
+							origin = exprStr(rhs)
+						}
+					}
+					return true
+				})
+				okOrigin = good && defs > 0
+			default:
+				origin = exprStr(arg)
+			}
+			r.Check(okOrigin, rule, fi.Name, exprStr(ce), c.Pos(ce.Pos()), "flow: the parsed increment is one field of the sample ("+origin+")",
+				"the text parsed as the increment comes from "+origin+", which is not a single field of the NUL-separated sample (it can contain the separator and everything after it): a sample that carries more fields than the aggregator reads then fails to parse although its increment is valid, so it is dropped and counted as a parse error")
+			return true
+		})
+	}
+	r.Floor(rule, 4, "counter, sub-key counter, table and numerical Sample")
+}
